@@ -18,6 +18,12 @@ CLAIMED = {
     "C04": ("stateful PBT over valid API call histories; oracle = library's own reader with collecting warning sink + reference model of queued chunks; exhaustive single-chunk length sweep",
         "Every datagram handed to the send callback in generated histories (lengths 0..5000, blocks of hundreds of tiny chunks without flush, multi-datagram resends, connless, disconnect reasons, sequence wrap) must be <= 1400 bytes, parse without error or warning under the true token mode, carry exactly num_chunks chunks, each bit-identical to the queued payload with the right sequence number; refused sends must leave the connection as live as before (differential fair-suffix on clones); no call may panic. Plus every single chunk length 0..1500/2100 for all variants sent, lost and resent.",
         "Parses with the library's own reader as the property states.", "DESIGN.md 2/C04"),
+    "C05": ("exhaustive header enumeration (all bit patterns = all in-range field tuples) + proptest packet values of every kind, write/read round trip",
+        "All 2^24 0.6 packet headers, all 0.6/0.7 (non-)vital chunk headers, 0.7 packet header over all values of its bit-field bytes x 8 tokens, 0.7 connless header: canonical patterns (doc/packet.md, doc/packet7.md) unpack without warning, re-pack to themselves and decode to independently computed fields; generated Packet values (connless, every control message x token x ack x close reason, chunk packets from well-formed chunk lists and raw payloads up to the limit, five content families so compression is taken both ways) written and read back with the true token mode: equal value, no warnings; every payload length for two families.",
+        "Only ChunksNoChunks is tolerated, for a chunk packet that really has zero chunks and no resend request. Writer preconditions (NUL-free reasons, response token != all-ones) respected.", "DESIGN.md 2/C05"),
+    "C06": ("exhaustive short inputs x token hints + proptest structured corruption of valid packets, crafted Huffman bodies and random bytes; oracle = no panic, iterator fuel, slice provenance with canary-guarded scratch buffer, accept => rewrite => same value",
+        "Every byte string of length 0..3 x hint {None,false,true} (0.6) and (0.7), 3-byte heads with fixed tails; valid packets of every kind with 0..3 corruptions (bytes, truncation, extension, flags, ack, num_chunks, compression flag toggled, chunk headers, token, control byte); Huffman bodies that expand beyond a packet / are truncated / bit-flipped; random bytes up to 3000. read, read_panic_on_decompression (uncompressed only), decompress_if_needed, is_initial, ChunksIter: never panic, returned slices inside input or scratch window, canaries intact, accepted values can be written and read back equal.",
+        "Memory safety beyond the canaries is evaluated by the ASan tier (see C19).", "DESIGN.md 2/C06"),
     "C07": ("exhaustive short inputs + proptest structured inputs; differential vs bundled C++ reference and an independent bit-level model from doc/huffman.md; canary-guarded buffers at every capacity",
         "Round trip for both output forms, exact compressed_len, byte identity with the C++ reference, one-directional decoder agreement with the reference, every capacity for short inputs, mutated/truncated/extended/garbage streams, generated frequency tables (depth <= 24), canaries around all output windows.",
         "Decoder termination is only observable through the wall-clock watchdog (no callback to attach fuel to). Trusts the C++ reference inside its int domain.", "DESIGN.md 2/C07"),
@@ -30,6 +36,9 @@ CLAIMED = {
     "C10": ("model-based PBT: builder programs vs BTreeMap model, wire round trips, recycle chains",
         "Generated builder programs (ordinal and 0..40 UUID types, duplicates, over-limit adds) predicted by a model; snapshot checked directly, after both wire forms, after recycle + second program, and for snapshots obtained by applying a delta: items(), item() for every key incl. UUID types, absent keys, crc, re-serialization.",
         "Sampling.", "DESIGN.md 2/C10"),
+    "C11": ("proptest structured corruption of valid snapshots/deltas in both wire forms + exhaustive single-word/byte sweeps + random words/bytes; oracle = no panic, callback fuel, per-thread counting allocator bound, independent reference reader, follow-up operations",
+        "Snapshots and deltas from an independent writer (ordinal, registry, extended, >= 0x8000 types, duplicate keys, registry id ladders, near 1024 items / 64 KiB) with 0..3 corruptions of structural fields to boundary values, truncations, inserts; every word x ~55 values and every truncation of a small valid input; random noise. Every parser call and apply: no panic, peak allocation <= 64 x input + 64 KiB, accept/reject agrees with a reference reader from doc/snapshot.md; accepted snapshots: <= 1024 items, <= 64 KiB, write/read equal, items/item/crc, create/apply against empty and other accepted snapshots, recycle + add_item + finish.",
+        "One open known finding (Delta::create on parsed snapshots with mismatched sizes) excludes that pair class.", "DESIGN.md 2/C11"),
     "C12": ("exhaustive permutations/interleavings for small part counts + proptest schedules; reference model of the receiver contract; twin-run without old-tick messages",
         "Every permutation and single duplication of up to 5 (7) parts, every interleaving of an older and a newer transfer, every data length 0..28800, and generated multi-transfer schedules with duplicates and hostile old-tick messages: exactly-once hand-out with original tick/base/crc/data, no warning on consistent transfers, old ticks never complete or disturb.",
         "Sampling above the exhaustive bounds.", "DESIGN.md 2/C12"),
@@ -51,6 +60,9 @@ CLAIMED = {
     "C18": ("model server + exhaustive truncations/byte patches/numeric sweeps + proptest hostile datagrams; exhaustive arrival sequences and generated merge schedules vs model",
         "All thirteen response kinds: every truncation, byte patch and boundary value of every numeric field, generated hostile datagrams: value or nothing, never a panic, returned data inside the datagram and sane. Merging: every arrival sequence up to length 5-7 and generated schedules up to 64 parts: complete iff every part merged, result equals the model's client set.",
         "One open known finding (merge does not record received parts) removes repeated parts from generated schedules.", "DESIGN.md 2/C18"),
+    "C19": ("model-based stateful PBT over view trees on every backing store with canary-guarded memory + exhaustive small-capacity sweeps; ASan replay of all checks in the thorough tier",
+        "Generated histories (write, extend incl. endless/panicking iterators, nested views to depth 4, cap_at below/at/above capacity, readers, raw advance, early exits, unwinding) on Vec, ArrayVec, slice, slice reference; exhaustive sweep of every capacity 0..64 x pre-existing length x caps x write lengths. Model = linear byte string + limit per view: remaining(), initialized() and the container length after release must match exactly, nothing outside the window is touched.",
+        "Memory-safety half: quick tier = canaries; thorough tier replays the quick case lists of all checks and the fuzz corpora under AddressSanitizer (tools/asan_replay.sh).", "DESIGN.md 2/C19"),
 }
 
 NOT_BUILT_REASON = "check not built yet in this commit (design in DESIGN.md section 2); will be claimed once its module exists"
